@@ -49,6 +49,7 @@ type tracePlan struct {
 	ops      int
 	pfault   float64
 	opts     []cat.Opts
+	variants []string
 }
 
 type stagePlan struct {
@@ -73,7 +74,7 @@ func genericRun(sp stagePlan) func(rep *Report, def *propDef) {
 		if sp.traces != nil {
 			for i, tp := range sp.traces(rep.Tier) {
 				cfg := TraceSpecCfg{Name: tp.name, Seed: rep.Seed*104729 + int64(i), Containers: tp.n, Features: tp.features,
-					Driver: run.DriverOpts{MaxOps: tp.ops, PFault: tp.pfault, PInvoke: 0.3}, Opts: tp.opts}
+					Driver: run.DriverOpts{MaxOps: tp.ops, PFault: tp.pfault, PInvoke: 0.3}, Opts: tp.opts, Variants: tp.variants}
 				st, err := traceStage(cfg, budget, 4)
 				rep.takeTrace(def, st, cfg, err)
 			}
@@ -166,8 +167,18 @@ func digraphCover(name string, kind string, opts []cat.Opts, q, t int) coverPlan
 func stdTraces(name string, ft fam.Features, pfault float64, opts []cat.Opts) func(string) []tracePlan {
 	return func(tier string) []tracePlan {
 		return []tracePlan{
-			{name + "-medium", ft, scale(tier, 60, 500), 40, pfault, opts},
-			{name + "-large", fam.Presets["large"], scale(tier, 5, 120), 70, pfault, opts},
+			{name + "-medium", ft, scale(tier, 60, 500), 40, pfault, opts, nil},
+			{name + "-large", fam.Presets["large"], scale(tier, 5, 120), 70, pfault, opts, nil},
+		}
+	}
+}
+
+// pairTraces: fault-free random histories recorded together with derived variants.
+func pairTraces(name string, ft fam.Features, opts []cat.Opts, variants []string, q, t int) func(string) []tracePlan {
+	return func(tier string) []tracePlan {
+		return []tracePlan{
+			{name + "-pairs", ft, scale(tier, q, t), 36, 0, opts, variants},
+			{name + "-pairs-large", fam.Presets["large"], scale(tier, 3, 60), 60, 0, opts, variants},
 		}
 	}
 }
@@ -414,15 +425,15 @@ func init() {
 
 	register(&propDef{id: "C15",
 		projection: "verdicts, executed functions and per-position provenance across equivalent encodings of the same signatures",
-		kinds:      []string{"args", "exec.extra", "exec.missing", "verdict", "info"},
+		kinds:      []string{"args", "exec.extra", "exec.missing", "verdict", "info", "pair.enc"},
 		run: genericRun(stagePlan{
 			covers: []coverPlan{randCover("encodings", tweak(small, func(f *fam.Features) { f.PObj = 0.6; f.PMulti = 0.5 }), rec, 100, 600, 0)},
-			traces: stdTraces("encodings", tweak(medium, func(f *fam.Features) { f.PObj = 0.6; f.PMulti = 0.5 }), 0, stdOpts),
+			traces: pairTraces("encodings", tweak(medium, func(f *fam.Features) { f.PObj = 0.5; f.PMulti = 0.5 }), stdOpts, []string{"enc", "enc"}, 40, 400),
 			sig:    true})})
 
 	register(&propDef{id: "C16",
 		projection: "verdicts and provenance-by-function across registration orders, scope creation positions and the DeferAcyclicVerification setting",
-		kinds:      []string{"args", "verdict", "exec.extra", "exec.missing"},
+		kinds:      []string{"args", "verdict", "exec.extra", "exec.missing", "pair.perm", "pair.scope", "pair.defer"},
 		run: genericRun(stagePlan{
 			covers: []coverPlan{
 				randCover("orders", small, deferBoth, 50, 400, 0),
@@ -430,11 +441,11 @@ func init() {
 				structCover("groups", fam.Groups, deferBoth, false, 10, 0, 2, 0),
 				digraphCover("digraphs-grp", "grp", deferBoth, 60, 800),
 			},
-			traces: stdTraces("orders", medium, 0, deferBoth)})})
+			traces: pairTraces("orders", medium, deferBoth, []string{"perm", "perm", "scope-early", "scope-late", "defer"}, 25, 300)})})
 
 	register(&propDef{id: "C17",
 		projection: "executions in a DryRun container (none), verdict classes of every operation",
-		kinds:      []string{"exec.dry", "verdict", "mk"},
+		kinds:      []string{"exec.dry", "verdict", "mk", "pair.dry"},
 		run: genericRun(stagePlan{
 			covers: []coverPlan{
 				randCover("dry", small, dryOpts, 50, 400, 0),
@@ -442,7 +453,10 @@ func init() {
 				structCover("groups", fam.Groups, dryOpts, false, 10, 0, 2, 0),
 				digraphCover("digraphs-req", "req", dryOpts, 60, 800),
 			},
-			traces: stdTraces("dry", medium, 0, []cat.Opts{{Recover: true, Dry: true}, {Dry: true}, {Dry: true, Defer: true}})})})
+			traces: func(tier string) []tracePlan {
+				return append(stdTraces("dry", medium, 0, []cat.Opts{{Recover: true, Dry: true}, {Dry: true}, {Dry: true, Defer: true}})(tier),
+					pairTraces("dry", medium, []cat.Opts{{Recover: true}, {Recover: true, Defer: true}}, []string{"dry"}, 40, 400)(tier)...)
+			}})})
 
 	register(&propDef{id: "C18",
 		projection: "ProvideInfo / DecorateInfo / InvokeInfo entries (strings, counts, order), untouched on rejection, constructor ids",
